@@ -1,13 +1,800 @@
 package main
 
-// Extension slot F: request lines (goExecExtF) and generators (registered with regExtra) of one model extension.
+// Extension slot F: the model's OWN typed decoding of message bytes
+// (lean/Saltpack/Model/Codec.lean = go-codec's decoding into the saltpack
+// packet types) against the package's own decoder.
+//
+//   codec.list <enc|signcrypt|sig|det> <hex>
+//
+// The implementation side is the hook VerifListPackets through listingTokens
+// (packets.go): the comparison is string equality of the listing.  The model
+// may answer `unmodelled <why>`; those are counted (`<stream>/unmodelled`),
+// the aim being > 99 % modelled.
+
+import (
+	"encoding/binary"
+	"fmt"
+	"io"
+	"math"
+	"strings"
+
+	"github.com/keybase/saltpack"
+	"verifharness/internal/keys"
+	"verifharness/internal/prng"
+)
+
+func codecListGo(mode string, msg []byte) string {
+	if mode == "det" {
+		hdr, hf, _, _ := listingTokens("sig", msg)
+		l := saltpack.VerifListPackets("det", msg)
+		sg := "E"
+		if l.HeaderState == "ok" {
+			if l.DetachedSigErr == nil {
+				sg = "S:" + keys.Hex(l.DetachedSig)
+			} else if l.DetachedSigErr != io.EOF {
+				sg = "R"
+			}
+		}
+		return fmt.Sprintf("ok %s %s %s", hdr, hf, sg)
+	}
+	hdr, hf, items, tail := listingTokens(mode, msg)
+	return fmt.Sprintf("ok %s %s %s %s", hdr, hf, items, tail)
+}
 
 func goExecExtF(t []string) (string, bool) {
 	switch t[0] {
+	case "codec.list":
+		if len(t) != 3 {
+			return "bad-request", true
+		}
+		return codecListGo(t[1], unhex(t[2])), true
 	}
 	return "", false
 }
 
+// ---------------------------------------------------------------------------
+// generators
+
+func listMode(f *family) string {
+	switch f.mode {
+	case "sc":
+		return "signcrypt"
+	}
+	return f.mode
+}
+
+// codecClass: a short signature of a listing (header state, items, tail)
+func codecClass(out string) string {
+	t := strings.Fields(out)
+	if len(t) < 4 {
+		return "short"
+	}
+	h := t[1][:1]
+	if len(t) == 4 { // det
+		return h + "/" + t[3][:1]
+	}
+	items := "0"
+	if t[3] != "-" {
+		its := strings.Split(t[3], ",")
+		items = fmt.Sprintf("%d", len(its))
+		if len(its) > 3 {
+			items = "many"
+		}
+		if its[len(its)-1] == "N" {
+			items += "N"
+		}
+	}
+	return h + "/" + items + "/" + t[4]
+}
+
+func codecCase(stream, mode, label string, msg []byte) Case {
+	line := "codec.list " + mode + " " + keys.Hex(msg)
+	out := codecListGo(mode, msg)
+	return Case{Stream: stream, Line: line, GoOut: out, Branch: mode + "/" + label + "/" + codecClass(out),
+		Sample: map[string]interface{}{"mode": mode, "what": label, "input_len": len(msg), "listing": codecClass(out)}}
+}
+
+func mvRawOf(b ...byte) *MV { return &MV{K: mvRaw, Raw: b} }
+func mvNilOf() *MV        { return &MV{K: mvNil} }
+func mvUintOf(u uint64) *MV {
+	return &MV{K: mvUint, U: u}
+}
+func mvMapOf(kv ...*MV) *MV {
+	m := &MV{K: mvMap}
+	for i := 0; i+1 < len(kv); i += 2 {
+		m.Map = append(m.Map, [2]*MV{kv[i], kv[i+1]})
+	}
+	return m
+}
+func mvWide(v *MV) *MV { c := v.clone(); c.Wide = true; return c }
+
+func intsOf(b []byte) *MV {
+	a := &MV{K: mvArr}
+	for _, x := range b {
+		a.Arr = append(a.Arr, mvUintOf(uint64(x)))
+	}
+	return a
+}
+
+func nestArr(depth int, leaf *MV) *MV {
+	v := leaf
+	for i := 0; i < depth; i++ {
+		v = mvArrOf(v)
+	}
+	return v
+}
+
+func nestMap(depth int, leaf *MV) *MV {
+	v := leaf
+	for i := 0; i < depth; i++ {
+		v = mvMapOf(mvIntOf(1), v)
+	}
+	return v
+}
+
+// palette: one value of every MessagePack family (and the awkward members of each)
+func codecPalette(r *prng.R) []struct {
+	label string
+	v     *MV
+} {
+	f32 := make([]byte, 5)
+	f32[0] = 0xca
+	binary.BigEndian.PutUint32(f32[1:], math.Float32bits(1.5))
+	f64 := make([]byte, 9)
+	f64[0] = 0xcb
+	binary.BigEndian.PutUint64(f64[1:], math.Float64bits(-2.25))
+	b32 := r.Bytes(32)
+	ints40 := intsOf(r.Bytes(40))
+	ints40.Arr[7] = mvNilOf()
+	return []struct {
+		label string
+		v     *MV
+	}{
+		{"nil", mvNilOf()}, {"true", mvBoolOf(true)}, {"false", mvBoolOf(false)},
+		{"int0", mvIntOf(0)}, {"int1", mvIntOf(1)}, {"int2", mvIntOf(2)}, {"int3", mvIntOf(3)}, {"int127", mvIntOf(127)}, {"int128", mvIntOf(128)},
+		{"int255", mvIntOf(255)}, {"int256", mvIntOf(256)}, {"int65536", mvIntOf(65536)}, {"int2p31", mvIntOf(1 << 31)},
+		{"int2p32", mvIntOf(1 << 32)}, {"uint2p63", mvUintOf(1 << 63)}, {"uintmax", mvUintOf(math.MaxUint64)},
+		{"neg1", mvIntOf(-1)}, {"neg32", mvIntOf(-32)}, {"neg33", mvIntOf(-33)}, {"neg129", mvIntOf(-129)}, {"neg40000", mvIntOf(-40000)},
+		{"negbig", mvIntOf(-1 << 40)}, {"int64min", mvIntOf(math.MinInt64)},
+		{"wide1", &MV{K: mvInt, I: 1, Wide: true}}, {"wide2", &MV{K: mvUint, U: 2, Wide: true}}, {"wideneg", &MV{K: mvInt, I: -1, Wide: true}},
+		{"i8pos", mvRawOf(0xd0, 0x01)}, {"i16pos", mvRawOf(0xd1, 0x00, 0x02)}, {"i32pos", mvRawOf(0xd2, 0, 0, 0, 1)}, {"i64pos", mvRawOf(0xd3, 0, 0, 0, 0, 0, 0, 0, 2)},
+		{"u64one", mvRawOf(0xcf, 0, 0, 0, 0, 0, 0, 0, 1)}, {"u32two", mvRawOf(0xce, 0, 0, 0, 2)},
+		{"f32", mvRawOf(f32...)}, {"f64", mvRawOf(f64...)},
+		{"str0", mvStrOf("")}, {"strsp", mvStrOf("saltpack")}, {"str40", mvStrOf(strings.Repeat("x", 40))}, {"str300", mvStrOf(strings.Repeat("y", 300))},
+		{"strwide", &MV{K: mvStr, Data: []byte("saltpack"), Wide: true}},
+		{"bin0", mvBinOf(nil)}, {"bin1", mvBinOf([]byte{7})}, {"bin16", mvBinOf(r.Bytes(16))}, {"bin31", mvBinOf(b32[:31])}, {"bin32", mvBinOf(b32)}, {"bin33", mvBinOf(r.Bytes(33))},
+		{"bin300", mvBinOf(r.Bytes(300))}, {"binwide", &MV{K: mvBin, Data: b32, Wide: true}},
+		{"arr0", mvArrOf()}, {"arr123", mvArrOf(mvIntOf(1), mvIntOf(2), mvIntOf(3))}, {"arr12", mvArrOf(mvIntOf(1), mvIntOf(2))},
+		{"ints32", intsOf(b32)}, {"ints40nil", ints40}, {"ints300", mvArrOf(mvIntOf(300))}, {"intsneg", mvArrOf(mvIntOf(-1))}, {"intsmix", mvArrOf(mvIntOf(1), mvStrOf("a"))},
+		{"arrnil", mvArrOf(mvNilOf(), mvNilOf())}, {"arrbins", mvArrOf(mvBinOf(b32), mvBinOf(b32[:5]), mvStrOf("q"), mvNilOf(), intsOf(r.Bytes(35)))},
+		{"arrarr", mvArrOf(mvArrOf(mvIntOf(2), mvIntOf(0)), mvArrOf())}, {"arrwide", &MV{K: mvArr, Arr: []*MV{mvIntOf(1), mvIntOf(0)}, Wide: true}},
+		{"map0", mvMapOf()}, {"map12", mvMapOf(mvIntOf(1), mvIntOf(2))}, {"mapints", mvMapOf(mvIntOf(1), mvIntOf(2), mvIntOf(3), mvIntOf(4))},
+		{"mapstr", mvMapOf(mvStrOf("a"), mvIntOf(1))}, {"mapbin", mvMapOf(mvBinOf([]byte{1}), mvBinOf([]byte{2}))}, {"mapnilkey", mvMapOf(mvNilOf(), mvIntOf(1))},
+		{"mapnilval", mvMapOf(mvIntOf(1), mvNilOf())}, {"maparrkey", mvMapOf(mvArrOf(mvIntOf(1)), mvIntOf(2))}, {"mapmapkey", mvMapOf(mvMapOf(), mvIntOf(2))},
+		{"mapextkey", mvMapOf(mvRawOf(0xd4, 5, 9), mvIntOf(2))}, {"mapdup", mvMapOf(mvIntOf(1), mvIntOf(2), mvIntOf(1), mvStrOf("x"))},
+		{"mapdupstr", mvMapOf(mvStrOf("k"), mvNilOf(), mvBinOf([]byte("k")), mvStrOf("x"))}, {"mapfloatkeys", mvMapOf(mvRawOf(f64...), mvIntOf(1), mvRawOf(f32...), mvIntOf(2))},
+		{"mapi_u", mvMapOf(mvIntOf(1), mvIntOf(2), mvRawOf(0xcc, 1), mvIntOf(3))}, {"mapwide", &MV{K: mvMap, Map: [][2]*MV{{mvIntOf(1), mvIntOf(2)}}, Wide: true}},
+		{"mapemptykey", mvMapOf(mvStrOf(""), mvIntOf(1))}, {"mapboolkey", mvMapOf(mvBoolOf(true), mvIntOf(1), mvBoolOf(false), mvNilOf())},
+		{"fixext1", mvRawOf(0xd4, 5, 9)}, {"fixext2", mvRawOf(0xd5, 5, 9, 9)}, {"fixext4", mvRawOf(0xd6, 1, 1, 2, 3, 4)}, {"fixext8", mvRawOf(0xd7, 1, 1, 2, 3, 4, 5, 6, 7, 8)},
+		{"fixext16", mvRawOf(append([]byte{0xd8, 3}, make([]byte, 16)...)...)}, {"ext8", mvRawOf(0xc7, 3, 5, 1, 2, 3)}, {"ext8len0", mvRawOf(0xc7, 0, 5)},
+		{"ext16len0", mvRawOf(0xc8, 0, 0, 5)}, {"ext32len0", mvRawOf(0xc9, 0, 0, 0, 0, 9)}, {"ext16", mvRawOf(0xc8, 0, 2, 5, 1, 2)}, {"ext32", mvRawOf(0xc9, 0, 0, 0, 1, 5, 1)},
+		{"time4", mvRawOf(0xd6, 0xff, 1, 2, 3, 4)}, {"time8", mvRawOf(0xd7, 0xff, 1, 2, 3, 4, 5, 6, 7, 8)}, {"time12", mvRawOf(append([]byte{0xc7, 12, 0xff}, make([]byte, 12)...)...)},
+		{"timebad1", mvRawOf(0xd4, 0xff, 1)}, {"timebad0", mvRawOf(0xc7, 0, 0xff)}, {"timebad16", mvRawOf(append([]byte{0xd8, 0xff}, make([]byte, 16)...)...)},
+		{"dupint", mvMapOf(mvIntOf(1), mvIntOf(2), mvIntOf(1), mvIntOf(3), mvIntOf(1), mvRawOf(0xcf, 0xff, 0, 0, 0, 0, 0, 0, 0))}, {"dupintneg", mvMapOf(mvIntOf(1), mvIntOf(2), mvIntOf(1), mvIntOf(-1))},
+		{"dupuint", mvMapOf(mvRawOf(0xcc, 1), mvRawOf(0xcc, 5), mvRawOf(0xcd, 0, 1), mvIntOf(7))}, {"dupuintneg", mvMapOf(mvRawOf(0xcc, 1), mvRawOf(0xcc, 5), mvRawOf(0xcc, 1), mvIntOf(-1))},
+		{"dupbool", mvMapOf(mvIntOf(1), mvBoolOf(true), mvIntOf(1), mvIntOf(1), mvIntOf(1), mvIntOf(0))}, {"dupboolbad", mvMapOf(mvIntOf(1), mvBoolOf(true), mvIntOf(1), mvIntOf(2))},
+		{"dupfloat", mvMapOf(mvIntOf(1), mvRawOf(f64...), mvIntOf(1), mvIntOf(3), mvIntOf(1), mvRawOf(f32...))}, {"dupfloatbad", mvMapOf(mvIntOf(1), mvRawOf(f64...), mvIntOf(1), mvStrOf("s"))},
+		{"dupfkeys", mvMapOf(mvRawOf(0xca, 0x3f, 0xc0, 0, 0), mvIntOf(1), mvRawOf(0xcb, 0x3f, 0xf8, 0, 0, 0, 0, 0, 0), mvStrOf("x"))},
+		{"dupzero", mvMapOf(mvRawOf(0xca, 0, 0, 0, 0), mvIntOf(1), mvRawOf(0xcb, 0x80, 0, 0, 0, 0, 0, 0, 0), mvStrOf("x"))},
+		{"dupnan", mvMapOf(mvRawOf(0xca, 0x7f, 0xc0, 0, 0), mvIntOf(1), mvRawOf(0xca, 0x7f, 0xc0, 0, 0), mvStrOf("x"))},
+		{"dupsubnormal", mvMapOf(mvRawOf(0xca, 0, 0, 0, 3), mvIntOf(1), mvRawOf(0xcb, 0x36, 0xa8, 0, 0, 0, 0, 0, 0), mvStrOf("x"))},
+		{"dupinf", mvMapOf(mvRawOf(0xca, 0xff, 0x80, 0, 0), mvIntOf(1), mvRawOf(0xcb, 0xff, 0xf0, 0, 0, 0, 0, 0, 0), mvStrOf("x"))},
+		{"dupnilthen", mvMapOf(mvIntOf(1), mvNilOf(), mvIntOf(1), mvStrOf("x"), mvIntOf(1), mvIntOf(4))}, {"dupbytes", mvMapOf(mvIntOf(1), mvStrOf("x"), mvIntOf(1), mvIntOf(4))},
+		{"dupstrint", mvMapOf(mvStrOf("k"), mvIntOf(1), mvBinOf([]byte("k")), mvStrOf("x"))}, {"duptime", mvMapOf(mvRawOf(0xd6, 0xff, 1, 2, 3, 4), mvIntOf(1), mvRawOf(0xd6, 0xff, 1, 2, 3, 5), mvIntOf(1))},
+		{"dupdeep", nestMap(47, mvMapOf(mvIntOf(1), mvIntOf(2), mvIntOf(1), mvIntOf(3)))}, {"dupdeeper", nestMap(48, mvMapOf(mvIntOf(1), mvIntOf(2), mvIntOf(1), mvIntOf(3)))},
+		{"c1", mvRawOf(0xc1)}, {"deep40", nestArr(40, mvIntOf(1))}, {"deepmap20", nestMap(20, mvIntOf(1))},
+	}
+}
+
+// a walkable position inside an MV tree
+type mvPath []int
+
+func mvPaths(v *MV, prefix mvPath, out *[]mvPath) {
+	*out = append(*out, append(mvPath(nil), prefix...))
+	if v.K == mvArr {
+		for i, e := range v.Arr {
+			mvPaths(e, append(prefix, i), out)
+		}
+	}
+}
+
+func mvReplace(v *MV, p mvPath, w *MV) *MV {
+	if len(p) == 0 {
+		return w
+	}
+	c := v.clone()
+	c.Arr[p[0]] = mvReplace(c.Arr[p[0]], p[1:], w)
+	return c
+}
+
+func mvAt(v *MV, p mvPath) *MV {
+	for _, i := range p {
+		v = v.Arr[i]
+	}
+	return v
+}
+
+func pathLabel(p mvPath) string {
+	if len(p) == 0 {
+		return "root"
+	}
+	s := make([]string, len(p))
+	for i, x := range p {
+		s[i] = fmt.Sprint(x)
+	}
+	return strings.Join(s, ".")
+}
+
+// the codec names of the struct at a header path / of a packet
+var encHeaderNames = []string{"format_name", "vers", "type", "ephemeral", "sendersecretbox", "rcvrs"}
+var sigHeaderNames = []string{"format_name", "vers", "type", "sender_public", "nonce"}
+
+func asNamedMap(a *MV, names []string) *MV {
+	m := &MV{K: mvMap}
+	for i, e := range a.Arr {
+		k := fmt.Sprintf("unknown%d", i)
+		if i < len(names) {
+			k = names[i]
+		}
+		m.Map = append(m.Map, [2]*MV{mvStrOf(k), e})
+	}
+	return m
+}
+
+func asFlatMap(a *MV) *MV {
+	el := append([]*MV(nil), a.Arr...)
+	if len(el)%2 == 1 {
+		el = append(el, mvNilOf())
+	}
+	return mvMapOf(el...)
+}
+
+// a message taken apart: header tree and packet trees
+type codecParts struct {
+	mode    string // listing mode
+	major   int
+	inner   *MV
+	packets []*MV
+	tail    []byte // detached: the signature object
+}
+
+func (p *codecParts) build(inner *MV, hdrObj *MV, packets []*MV) []byte {
+	var out []byte
+	if hdrObj != nil {
+		out = mpEncode(hdrObj)
+	} else {
+		out = mpEncode(mvBinOf(mpEncode(inner)))
+	}
+	for _, q := range packets {
+		out = append(out, mpEncode(q)...)
+	}
+	return out
+}
+
+func takeApart(mode string, major int, msg []byte) *codecParts {
+	_, inner, pk, _ := splitMsg(msg)
+	if inner == nil || inner.K != mvArr {
+		return nil
+	}
+	p := &codecParts{mode: mode, major: major, inner: inner}
+	for _, b := range pk {
+		v, _, err := mpParse(b)
+		if err != nil {
+			return nil
+		}
+		p.packets = append(p.packets, v)
+	}
+	return p
+}
+
+func (p *codecParts) headerNames() []string {
+	if p.mode == "sig" || p.mode == "det" {
+		return sigHeaderNames
+	}
+	return encHeaderNames
+}
+
+func (p *codecParts) packetNames() []string {
+	switch {
+	case p.mode == "signcrypt":
+		return []string{"ctext", "final"}
+	case p.mode == "enc" && p.major == 1:
+		return []string{"authenticators", "ctext"}
+	case p.mode == "sig" && p.major == 1:
+		return []string{"signature", "payload_chunk"}
+	}
+	return nil // V2 blocks are not structs (CodecDecodeSelf)
+}
+
+// confusions of one message: every field replaced by every palette value,
+// containers in their other form, surplus / missing elements, names
+func (p *codecParts) confusions(r *prng.R, pal []struct {
+	label string
+	v     *MV
+}, budget int, emit func(label string, msg []byte)) {
+	type job struct {
+		label string
+		msg   func() []byte
+	}
+	var jobs []job
+	add := func(label string, f func() []byte) { jobs = append(jobs, job{label, f}) }
+	// --- header tree --------------------------------------------------------
+	var hp []mvPath
+	mvPaths(p.inner, nil, &hp)
+	for _, path := range hp {
+		path := path
+		for _, pv := range pal {
+			pv := pv
+			add("h@"+pathLabel(path)+"="+pv.label, func() []byte { return p.build(mvReplace(p.inner, path, pv.v), nil, p.packets) })
+		}
+		at := mvAt(p.inner, path)
+		if at.K == mvArr {
+			add("h@"+pathLabel(path)+".flatmap", func() []byte { return p.build(mvReplace(p.inner, path, asFlatMap(at)), nil, p.packets) })
+			add("h@"+pathLabel(path)+".wide", func() []byte { return p.build(mvReplace(p.inner, path, mvWide(at)), nil, p.packets) })
+			for _, k := range []int{1, 2, 3} {
+				k := k
+				add(fmt.Sprintf("h@%s.surplus%d", pathLabel(path), k), func() []byte {
+					c := at.clone()
+					for i := 0; i < k; i++ {
+						c.Arr = append(c.Arr, pal[r.Intn(len(pal))].v)
+					}
+					return p.build(mvReplace(p.inner, path, c), nil, p.packets)
+				})
+				if len(at.Arr) >= k {
+					add(fmt.Sprintf("h@%s.missing%d", pathLabel(path), k), func() []byte {
+						c := at.clone()
+						c.Arr = c.Arr[:len(c.Arr)-k]
+						return p.build(mvReplace(p.inner, path, c), nil, p.packets)
+					})
+				}
+			}
+			var names []string
+			switch {
+			case len(path) == 0:
+				names = p.headerNames()
+			case len(path) == 1 && path[0] == 1:
+				names = []string{"major", "minor"}
+			case len(path) == 2 && path[0] == 5:
+				names = []string{"receiver_key_id", "payloadkey"}
+			}
+			if names != nil {
+				add("h@"+pathLabel(path)+".named", func() []byte { return p.build(mvReplace(p.inner, path, asNamedMap(at, names)), nil, p.packets) })
+				add("h@"+pathLabel(path)+".named.shuffled", func() []byte {
+					m := asNamedMap(at, names)
+					for i := len(m.Map) - 1; i > 0; i-- {
+						j := r.Intn(i + 1)
+						m.Map[i], m.Map[j] = m.Map[j], m.Map[i]
+					}
+					m.Map = append(m.Map, [2]*MV{mvStrOf("zzz"), pal[r.Intn(len(pal))].v})
+					return p.build(mvReplace(p.inner, path, m), nil, p.packets)
+				})
+				add("h@"+pathLabel(path)+".named.dup", func() []byte {
+					m := asNamedMap(at, names)
+					m.Map = append(m.Map, m.Map[r.Intn(len(m.Map))])
+					return p.build(mvReplace(p.inner, path, m), nil, p.packets)
+				})
+				add("h@"+pathLabel(path)+".named.binkeys", func() []byte {
+					m := asNamedMap(at, names)
+					for i := range m.Map {
+						switch i % 3 {
+						case 0:
+							m.Map[i][0] = mvBinOf(m.Map[i][0].Data)
+						case 1:
+							m.Map[i][0] = intsOf(m.Map[i][0].Data)
+						}
+					}
+					return p.build(mvReplace(p.inner, path, m), nil, p.packets)
+				})
+				add("h@"+pathLabel(path)+".named.badkey", func() []byte {
+					m := asNamedMap(at, names)
+					m.Map[r.Intn(len(m.Map))][0] = pal[r.Intn(len(pal))].v
+					return p.build(mvReplace(p.inner, path, m), nil, p.packets)
+				})
+				add("h@"+pathLabel(path)+".named.crosskey", func() []byte {
+					// a key that spans two entries of go-codec's name table
+					m := asNamedMap(at, names)
+					k := append([]byte(names[0]), 0xff, 0, 0)
+					m.Map[0][0] = mvBinOf(k)
+					return p.build(mvReplace(p.inner, path, m), nil, p.packets)
+				})
+			}
+		}
+		if at.K == mvBin || at.K == mvStr {
+			add("h@"+pathLabel(path)+".ints", func() []byte { return p.build(mvReplace(p.inner, path, intsOf(at.Data)), nil, p.packets) })
+			add("h@"+pathLabel(path)+".intsmap", func() []byte { return p.build(mvReplace(p.inner, path, asFlatMap(intsOf(at.Data))), nil, p.packets) })
+			add("h@"+pathLabel(path)+".other", func() []byte {
+				c := at.clone()
+				if c.K == mvBin {
+					c.K = mvStr
+				} else {
+					c.K = mvBin
+				}
+				c.Wide = true
+				return p.build(mvReplace(p.inner, path, c), nil, p.packets)
+			})
+		}
+	}
+	// --- the outer header object (a `*[]byte` at top level) -------------------
+	hb := mpEncode(p.inner)
+	for _, pv := range pal {
+		pv := pv
+		add("outer="+pv.label, func() []byte { return p.build(nil, pv.v, p.packets) })
+	}
+	add("outer.str", func() []byte { return p.build(nil, &MV{K: mvStr, Data: hb}, p.packets) })
+	add("outer.wide", func() []byte { return p.build(nil, &MV{K: mvBin, Data: hb, Wide: true}, p.packets) })
+	add("outer.ints", func() []byte { return p.build(nil, intsOf(hb), p.packets) })
+	add("outer.intsmap", func() []byte { return p.build(nil, asFlatMap(intsOf(hb)), p.packets) })
+	add("outer.trailing", func() []byte { return p.build(nil, mvBinOf(append(append([]byte(nil), hb...), r.Bytes(5)...)), p.packets) })
+	add("outer.nilheader", func() []byte { return p.build(nil, mvBinOf([]byte{0xc0}), p.packets) })
+	add("outer.emptyheader", func() []byte { return p.build(nil, mvBinOf(nil), p.packets) })
+	// --- packets ----------------------------------------------------------------
+	for pi, pk := range p.packets {
+		pi, pk := pi, pk
+		if pi > 1 && pi < len(p.packets)-1 {
+			continue
+		}
+		withPacket := func(w *MV) []byte {
+			q := append([]*MV(nil), p.packets...)
+			q[pi] = w
+			return p.build(p.inner, nil, q)
+		}
+		var pp []mvPath
+		mvPaths(pk, nil, &pp)
+		for _, path := range pp {
+			path := path
+			if len(path) == 2 && path[1] > 1 {
+				continue // authenticators beyond the second: the same code path
+			}
+			for _, pv := range pal {
+				pv := pv
+				add(fmt.Sprintf("p%d@%s=%s", pi, pathLabel(path), pv.label), func() []byte { return withPacket(mvReplace(pk, path, pv.v)) })
+			}
+			at := mvAt(pk, path)
+			if at.K == mvArr {
+				add(fmt.Sprintf("p%d@%s.flatmap", pi, pathLabel(path)), func() []byte { return withPacket(mvReplace(pk, path, asFlatMap(at))) })
+				add(fmt.Sprintf("p%d@%s.wide", pi, pathLabel(path)), func() []byte { return withPacket(mvReplace(pk, path, mvWide(at))) })
+				for _, k := range []int{1, 2, 4} {
+					k := k
+					add(fmt.Sprintf("p%d@%s.surplus%d", pi, pathLabel(path), k), func() []byte {
+						c := at.clone()
+						for i := 0; i < k; i++ {
+							c.Arr = append(c.Arr, pal[r.Intn(len(pal))].v)
+						}
+						return withPacket(mvReplace(pk, path, c))
+					})
+					if len(at.Arr) >= k {
+						add(fmt.Sprintf("p%d@%s.missing%d", pi, pathLabel(path), k), func() []byte {
+							c := at.clone()
+							c.Arr = c.Arr[:len(c.Arr)-k]
+							return withPacket(mvReplace(pk, path, c))
+						})
+					}
+				}
+				if len(path) == 0 {
+					names := p.packetNames()
+					if names == nil {
+						names = []string{"final", "authenticators", "ctext"} // V2: not a struct; keys are just elements
+					}
+					add(fmt.Sprintf("p%d.named", pi), func() []byte { return withPacket(asNamedMap(at, names)) })
+					add(fmt.Sprintf("p%d.named.rev", pi), func() []byte {
+						m := asNamedMap(at, names)
+						for i, j := 0, len(m.Map)-1; i < j; i, j = i+1, j-1 {
+							m.Map[i], m.Map[j] = m.Map[j], m.Map[i]
+						}
+						m.Map = append(m.Map, [2]*MV{mvStrOf("other"), pal[r.Intn(len(pal))].v})
+						return withPacket(m)
+					})
+					add(fmt.Sprintf("p%d.named.dup", pi), func() []byte {
+						m := asNamedMap(at, names)
+						m.Map = append(m.Map, m.Map[r.Intn(len(m.Map))])
+						return withPacket(m)
+					})
+					add(fmt.Sprintf("p%d.named.badkey", pi), func() []byte {
+						m := asNamedMap(at, names)
+						m.Map[r.Intn(len(m.Map))][0] = pal[r.Intn(len(pal))].v
+						return withPacket(m)
+					})
+				}
+			}
+			if at.K == mvBin || at.K == mvStr {
+				add(fmt.Sprintf("p%d@%s.ints", pi, pathLabel(path)), func() []byte { return withPacket(mvReplace(pk, path, intsOf(at.Data))) })
+				add(fmt.Sprintf("p%d@%s.intsmap", pi, pathLabel(path)), func() []byte { return withPacket(mvReplace(pk, path, asFlatMap(intsOf(at.Data)))) })
+				add(fmt.Sprintf("p%d@%s.ints40", pi, pathLabel(path)), func() []byte {
+					return withPacket(mvReplace(pk, path, intsOf(append(append([]byte(nil), at.Data...), r.Bytes(9)...))))
+				})
+				add(fmt.Sprintf("p%d@%s.str", pi, pathLabel(path)), func() []byte {
+					c := at.clone()
+					c.K = mvStr
+					c.Wide = r.Bool()
+					return withPacket(mvReplace(pk, path, c))
+				})
+				for _, n := range []int{0, 1, 15, 16, 17, 31, 33, 64} {
+					n := n
+					add(fmt.Sprintf("p%d@%s.len%d", pi, pathLabel(path), n), func() []byte { return withPacket(mvReplace(pk, path, mvBinOf(r.Bytes(n)))) })
+				}
+			}
+		}
+		// an object of another shape in the packet's place, then more packets
+		for _, pv := range pal {
+			pv := pv
+			add(fmt.Sprintf("p%d.insert=%s", pi, pv.label), func() []byte {
+				q := append([]*MV(nil), p.packets[:pi]...)
+				q = append(q, pv.v)
+				q = append(q, p.packets[pi:]...)
+				return p.build(p.inner, nil, q)
+			})
+		}
+	}
+	// trailing objects
+	for _, pv := range pal {
+		pv := pv
+		add("trail="+pv.label, func() []byte { return p.build(p.inner, nil, append(append([]*MV(nil), p.packets...), pv.v)) })
+	}
+	// --- emit (all, or a sample), each also truncated somewhere -------------------
+	emitJob := func(j job) {
+		m := j.msg()
+		emit(j.label, m)
+	}
+	if budget <= 0 || budget >= len(jobs) {
+		for _, j := range jobs {
+			emitJob(j)
+		}
+	} else {
+		for i := 0; i < budget; i++ {
+			emitJob(jobs[r.Intn(len(jobs))])
+		}
+	}
+	nt := budget / 4
+	if budget <= 0 {
+		nt = len(jobs) / 4
+	}
+	for i := 0; i < nt; i++ {
+		j := jobs[r.Intn(len(jobs))]
+		m := j.msg()
+		if len(m) > 1 {
+			emit(j.label+".trunc", m[:1+r.Intn(len(m)-1)])
+		}
+	}
+}
+
+func genericLabel(l string) string {
+	// histogram key: drop indices and values
+	if i := strings.IndexAny(l, "@="); i > 0 {
+		head := l[:i]
+		if len(head) > 1 && (head[0] == 'p') {
+			head = "p"
+		}
+		tail := ""
+		if j := strings.LastIndex(l, "."); j > i {
+			tail = l[j:]
+		}
+		if strings.Contains(l, "=") {
+			tail = "=v" + tail
+		}
+		return head + tail
+	}
+	return l
+}
+
+// messages of every mode and version to start from
+type codecSeed struct {
+	mode  string
+	major int
+	msg   []byte
+}
+
+func codecSeeds(ctx *Ctx, r *prng.R, n int) (seeds []codecSeed, fams []*family) {
+	for _, f := range encFamilies(ctx, r, 2*n) {
+		fams = append(fams, f)
+		seeds = append(seeds, codecSeed{"enc", f.major, f.msgs[len(f.msgs)-1].msg})
+	}
+	for _, f := range scFamilies(ctx, r, n) {
+		fams = append(fams, f)
+		seeds = append(seeds, codecSeed{"signcrypt", 2, f.msgs[len(f.msgs)-1].msg})
+	}
+	for _, f := range sigFamilies(ctx, r, 2*n) {
+		fams = append(fams, f)
+		seeds = append(seeds, codecSeed{"sig", f.major, f.msgs[len(f.msgs)-1].msg})
+	}
+	for k := 0; k < 2*n; k++ {
+		major := 1 + k%2
+		line := fmt.Sprintf("sig.detached %d 0 %s %s %s", major, keys.Hex(r.Bytes(32)), keys.Hex(r.Bytes(16)), keys.Hex(r.Bytes(10)))
+		if sig, ok := okBytes(goExec(line)); ok {
+			seeds = append(seeds, codecSeed{"det", major, sig})
+		}
+	}
+	return
+}
+
+var hostileBytes = []byte{0x00, 0x01, 0x02, 0x7f, 0x80, 0x81, 0x82, 0x83, 0x8f, 0x90, 0x91, 0x92, 0x93, 0x9f, 0xa0, 0xa1, 0xbf, 0xc0, 0xc1, 0xc2, 0xc3, 0xc4, 0xc5, 0xc6,
+	0xc7, 0xc8, 0xc9, 0xca, 0xcb, 0xcc, 0xcd, 0xce, 0xcf, 0xd0, 0xd1, 0xd2, 0xd3, 0xd4, 0xd5, 0xd6, 0xd7, 0xd8, 0xd9, 0xda, 0xdb, 0xdc, 0xdd, 0xde, 0xdf, 0xe0, 0xff}
+
+func genCodecList(ctx *Ctx, emit func(Case)) {
+	r := ctx.R.Fork()
+	seeds, fams := codecSeeds(ctx, r, ctx.N(1, 4))
+	// (1) every mutation of every family, in the family's own mode; signatures also as detached; every 5th cross-mode
+	modes := []string{"enc", "signcrypt", "sig", "det"}
+	for _, f := range fams {
+		mode := listMode(f)
+		for _, g := range f.msgs {
+			emit(codecCase("codec.list.genuine", mode, "genuine", g.msg))
+		}
+		for i, m := range allMutations(ctx, r, f, false) {
+			lbl := m.label
+			if j := strings.IndexAny(lbl, "0123456789"); j > 0 && (lbl[0] == 'p' || lbl[0] == 'f') && strings.Contains(lbl, ".") {
+				lbl = lbl[:1] + lbl[strings.Index(lbl, "."):]
+			}
+			emit(codecCase("codec.list.mutations", mode, lbl, m.msg))
+			if mode == "sig" && i%3 == 0 {
+				emit(codecCase("codec.list.mutations", "det", lbl, m.msg))
+			}
+			if i%5 == 0 {
+				emit(codecCase("codec.list.crossmode", modes[r.Intn(4)], f.mode+"-as-other", m.msg))
+			}
+		}
+	}
+	// (2) bytes: truncation at every position, a flipped bit and a hostile descriptor at every position
+	for si, s := range seeds {
+		if ctx.Quick && si%2 == 1 {
+			continue
+		}
+		n := len(s.msg)
+		for k := 0; k < n; k++ {
+			emit(codecCase("codec.list.bytes", s.mode, "trunc", s.msg[:k]))
+			c := append([]byte(nil), s.msg...)
+			c[k] ^= 1 << uint(r.Intn(8))
+			emit(codecCase("codec.list.bytes", s.mode, "flip", c))
+			reps := ctx.N(1, 6)
+			for j := 0; j < reps; j++ {
+				c := append([]byte(nil), s.msg...)
+				c[k] = hostileBytes[r.Intn(len(hostileBytes))]
+				emit(codecCase("codec.list.bytes", s.mode, "descriptor", c))
+			}
+		}
+	}
+	// (3) type confusions of every field
+	pal := codecPalette(r)
+	for _, s := range seeds {
+		s := s
+		p := takeApart(s.mode, s.major, s.msg)
+		if p == nil {
+			continue
+		}
+		p.confusions(r, pal, ctx.N(1200, 0), func(label string, msg []byte) {
+			emit(codecCase("codec.list.confusion", s.mode, genericLabel(label), msg))
+		})
+	}
+	// (4) the depth limit (100 nested decode/swallow calls) around its boundary
+	for _, s := range seeds {
+		p := takeApart(s.mode, s.major, s.msg)
+		if p == nil {
+			continue
+		}
+		depths := []int{44, 45, 46, 47, 48, 49, 50, 51, 52, 93, 94, 95, 96, 97, 98, 99, 100, 101, 102, 103}
+		if ctx.Quick {
+			depths = []int{46, 47, 48, 49, 50, 95, 96, 97, 98, 99, 100, 101}
+		}
+		for _, d := range depths {
+			for _, leaf := range []*MV{mvIntOf(1), mvArrOf(), mvRawOf(0xc7, 0, 5, 0x01), mvMapOf()} {
+				deep := nestArr(d, leaf)
+				deepm := nestMap(d, leaf)
+				// surplus element of the header / of the version / of a packet / of an authenticator; in a packet's place; behind the message
+				h := p.inner.clone()
+				h.Arr = append(h.Arr, deep)
+				emit(codecCase("codec.list.depth", s.mode, "header-surplus", p.build(h, nil, p.packets)))
+				h2 := p.inner.clone()
+				if h2.Arr[1].K == mvArr {
+					h2.Arr[1].Arr = append(h2.Arr[1].Arr, deepm)
+					emit(codecCase("codec.list.depth", s.mode, "version-surplus", p.build(h2, nil, p.packets)))
+				}
+				if len(p.packets) > 0 && p.packets[0].K == mvArr {
+					q := append([]*MV(nil), p.packets...)
+					c := q[0].clone()
+					c.Arr = append(c.Arr, nestArr(d, leaf))
+					q[0] = c
+					emit(codecCase("codec.list.depth", s.mode, "packet-surplus", p.build(p.inner, nil, q)))
+					c2 := p.packets[0].clone()
+					for i, e := range c2.Arr {
+						if e.K == mvArr && len(e.Arr) > 0 {
+							a := intsOf(make([]byte, 32))
+							a.Arr = append(a.Arr, deep)
+							c2.Arr[i] = mvArrOf(a)
+						}
+					}
+					q2 := append([]*MV(nil), p.packets...)
+					q2[0] = c2
+					emit(codecCase("codec.list.depth", s.mode, "authenticator-surplus", p.build(p.inner, nil, q2)))
+					q3 := append([]*MV{deep}, p.packets...)
+					emit(codecCase("codec.list.depth", s.mode, "as-packet", p.build(p.inner, nil, q3)))
+					q4 := append([]*MV{deepm}, p.packets...)
+					emit(codecCase("codec.list.depth", s.mode, "as-packet-map", p.build(p.inner, nil, q4)))
+				}
+			}
+		}
+	}
+	// (5) random objects after a valid header, and random bytes
+	for i := 0; i < ctx.N(150, 3000); i++ {
+		s := seeds[r.Intn(len(seeds))]
+		p := takeApart(s.mode, s.major, s.msg)
+		if p == nil {
+			continue
+		}
+		var q []*MV
+		for k := r.Intn(4); k >= 0; k-- {
+			if r.Intn(3) == 0 && len(p.packets) > 0 {
+				q = append(q, p.packets[r.Intn(len(p.packets))])
+			} else {
+				q = append(q, randMV(r, pal, 3))
+			}
+		}
+		msg := p.build(p.inner, nil, q)
+		if r.Intn(4) == 0 && len(msg) > 2 {
+			msg = msg[:1+r.Intn(len(msg)-1)]
+		}
+		emit(codecCase("codec.list.random", s.mode, "objects", msg))
+	}
+	for i := 0; i < ctx.N(100, 3000); i++ {
+		n := prng.Pick(r, 1, 2, 3, 5, 8, 13, 40)
+		b := make([]byte, n)
+		for j := range b {
+			if r.Intn(2) == 0 {
+				b[j] = hostileBytes[r.Intn(len(hostileBytes))]
+			} else {
+				b[j] = byte(r.Intn(256))
+			}
+		}
+		mode := modes[r.Intn(4)]
+		emit(codecCase("codec.list.random", mode, "bytes", b))
+		// the same bytes as the header packet's content and behind a genuine header
+		s := seeds[r.Intn(len(seeds))]
+		if p := takeApart(s.mode, s.major, s.msg); p != nil {
+			emit(codecCase("codec.list.random", s.mode, "header-bytes", p.build(nil, mvBinOf(b), p.packets)))
+			emit(codecCase("codec.list.random", s.mode, "packet-bytes", append(p.build(p.inner, nil, nil), b...)))
+		}
+	}
+}
+
+func randMV(r *prng.R, pal []struct {
+	label string
+	v     *MV
+}, depth int) *MV {
+	if depth == 0 || r.Intn(3) > 0 {
+		return pal[r.Intn(len(pal))].v
+	}
+	n := r.Intn(5)
+	if r.Intn(4) == 0 {
+		m := &MV{K: mvMap}
+		for i := 0; i < n; i++ {
+			m.Map = append(m.Map, [2]*MV{randMV(r, pal, depth-1), randMV(r, pal, depth-1)})
+		}
+		return m
+	}
+	a := &MV{K: mvArr}
+	for i := 0; i < n; i++ {
+		a.Arr = append(a.Arr, randMV(r, pal, depth-1))
+	}
+	return a
+}
+
 func init() {
-	// regExtra("Cnn", func(ctx *Ctx, emit func(Case)) { … })
+	regExtra("C15", genCodecList)
+	regExtra("C02", func(ctx *Ctx, emit func(Case)) {
+		// the authenticity streams reach the model through its own decoder for hostile bytes: the same tie, smaller
+		sub := *ctx
+		sub.Quick = true
+		sub.R = ctx.R.Fork()
+		genCodecList(&sub, emit)
+	})
+	// the streams alone (development, measurement of the modelled share): corr -prop XF
+	register("XF", &propDef{streams: genCodecList, level: "correspondence"})
 }
